@@ -72,7 +72,9 @@ type setSnap[T comparable] struct {
 }
 
 func (a *algSet[T]) snap() setSnap[T] {
-	return setSnap[T]{vals: a.S.Values(), size: a.S.Size(), empty: a.S.Empty()}
+	// deep copy: if the library hands out a shared (memoised) slice, a later
+	// in-place change must not silently change this snapshot too
+	return setSnap[T]{vals: append([]T(nil), a.S.Values()...), size: a.S.Size(), empty: a.S.Empty()}
 }
 
 func (a *algSet[T]) unchanged(before, after setSnap[T]) bool {
